@@ -61,10 +61,27 @@ def gen_case(g):
     if rng.random() < 0.1 and count >= 2:
         ops[1] = ops[0]  # same operand twice
     case = {"fn": rng.choice(FUNCS), "operands": ops}
+    if rng.random() < 0.08:
+        case["prefix"] = rng.choice(["var", "x", "zz"])
     if rng.random() < 0.3:
         # alignment forces the retain flags: the global options must not matter
         case["options"] = {"retain_names": rng.random() < 0.4, "retain_coefficients": rng.random() < 0.5}
     return case
+
+
+def default_name():
+    import numpoly
+
+    return numpoly.get_options()["default_varname"] + "0"
+
+
+def renamed(spec, prefix):
+    """The same operand over indeterminates <prefix><n> instead of q<n>."""
+    if spec["k"] == "poly":
+        return {**spec, "names": [prefix + n[1:] for n in spec["names"]]}
+    if spec["k"] == "plist":
+        return {**spec, "items": [renamed(item, prefix) for item in spec["items"]]}
+    return spec
 
 
 def expected_names(specs):
@@ -78,9 +95,9 @@ def expected_names(specs):
             for item in spec["items"]:
                 if item["k"] == "poly":
                     inner |= set(item["names"])
-            names |= inner or {"q0"}
+            names |= inner or {default_name()}
         else:
-            names.add("q0")
+            names.add(default_name())
     return tuple(sorted(names, key=M.numsuffix))
 
 
@@ -92,6 +109,24 @@ def structure(poly):
 def run_case(case, ctx):
     import numpoly
 
+    prefix = case.get("prefix")
+    if prefix and not case.get("_renamed"):
+        # the whole case under another variable prefix (after other cases ran under "q":
+        # nothing about the naming convention may be remembered from earlier calls)
+        table = {}
+        operands = []
+        for spec in case["operands"]:
+            if id(spec) not in table:
+                table[id(spec)] = renamed(spec, prefix)
+            operands.append(table[id(spec)])
+        defaults = numpoly.get_options()
+        ctx.count("other_prefix_cases")
+        try:
+            with numpoly.global_options(default_varname=prefix, varname_filter=prefix + r"\d+"):
+                run_case({**case, "operands": operands, "_renamed": True}, ctx)
+        finally:
+            numpoly.set_options(**defaults)
+        return
     specs = case["operands"]
     fn = case["fn"]
     real = []
